@@ -4,6 +4,7 @@ sys.path.insert(0, os.path.dirname(os.path.abspath(__file__)))
 V = os.path.dirname(os.path.dirname(os.path.abspath(__file__)))
 props = [json.loads(l) for l in open(os.path.join(V, "properties.jsonl"))]
 checks, na = [], []
+all_code = set()
 for p in props:
     pid = p["id"]
     path = os.path.join(V, "fv", "props", pid.lower() + ".py")
@@ -17,6 +18,21 @@ for p in props:
     for node in ast.parse(src).body:
         if isinstance(node, ast.Assign) and isinstance(node.targets[0], ast.Name) and node.targets[0].id in ("LEVEL_TEXT", "LEVEL_NOTE", "TECHNIQUE", "DESIGN_REF"):
             ns[node.targets[0].id] = ast.literal_eval(node.value)
+        if isinstance(node, ast.Assign) and isinstance(node.targets[0], ast.Name) and node.targets[0].id == "TIE_A":
+            try:
+                ns["TIE_A"] = eval(compile(ast.Expression(node.value), "<tie_a>", "eval"), {"__builtins__": {}}, {})
+            except Exception:  # noqa: BLE001   (a list built from other module constants: only the literal code keys matter here)
+                import re
+                ns["TIE_A"] = re.findall(r'[\x27"](code:[^\x27"]+)[\x27"]', ast.unparse(node.value))
+    code = sorted(k[len("code:fuzzylite."):] for k in ns.get("TIE_A", []) if k.startswith("code:"))
+    if code:
+        all_code.update({pid + ":" + c for c in code})
+        ns["LEVEL_TEXT"] = (ns.get("LEVEL_TEXT", "") + "  Tie A for algorithms: the source of " + ", ".join(code) + " is translated to Lean on every "
+                            "run (fv/pylean.py -> Gen/Code*.lean) and the theorems code_* of the Props file prove the regenerated definitions equal "
+                            "to the model the other theorems are about, for all inputs (DESIGN.md section 0.7).")
+        ns["TECHNIQUE"] = ns.get("TECHNIQUE", "") + " + Python-to-Lean translation of the algorithm (regenerated every run) proved equal to the model"
+        ns["LEVEL_NOTE"] = (ns.get("LEVEL_NOTE", "") + "  Trusted for the code tie: the translator fv/pylean.py and the externals named in the generated files "
+                            "(methods of other classes, look-ups, string / NumPy primitives), validated by the correspondence runs.")
     checks.append({
         "property_id": pid,
         "quick_cmd": f"./check {pid} --tier quick",
@@ -39,6 +55,8 @@ man = {
          "kind_free_text": "Lean 4 Lake library FlVerif: Spec (documented definitions), Op (code-shaped executable models), Gen (regenerated from /repo on every run), Props (property theorems), Driver.lean (line-protocol executable model at Q)"},
         {"name": "tracer", "path": "fv/tracer.py", "serves_properties": ["C03", "C04", "C05", "C11", "C06", "C17", "C14", "C15", "C20"],
          "kind_free_text": "symbolic tracer of the NumPy leaf functions + table introspection -> Lean source (Tie A)"},
+        {"name": "pylean", "path": "fv/pylean.py", "serves_properties": sorted({c.split(":")[0] for c in all_code}),
+         "kind_free_text": "translator from a subset of Python (AST of the current source) to Lean definitions in an exception monad; profiles in fv/profiles/; the generated definitions are proved equal to the hand-written models (Tie A for algorithms)"},
         {"name": "harness", "path": "fv", "serves_properties": [c["property_id"] for c in checks],
          "kind_free_text": "Python correspondence harness: generators, exact-rational comparison against the Lean driver, property oracles on the implementation, verdict / evidence writer (Tie B)"},
     ],
